@@ -36,6 +36,10 @@ def own (op : String) (j : Json) : Option (Except String Json) :=
     let p ← pApprovalL (← j.getObjVal? "votes")
     let n ← j.getObjValAs? Nat "n"
     pure (exceptJson slotsJson (Shape.approvalPlurality split p n))
+  | "input_order" => some do
+    let votes ← getVotes j "votes"
+    let n ← j.getObjValAs? Nat "n"
+    pure (slotsJson (Shape.inputOrderSelector votes n))
   | _ => none
 
 /-- the C08 correspondence re-uses the handlers of the properties owning the models -/
